@@ -187,6 +187,12 @@ def gen_rs_conditions(rng, role, now=0, freq=10):
             # left over from the time this replica set was a (paused) canary: promoted by validation while paused
             conds.append(K.cond("Canary-Paused", rng.choice(["True", "True", "False"]), trans=-650,
                                 reason=rng.choice(["CrashLoopBackOff", "ImagePullBackOff", "Unknown"])))
+    if role not in ("active", "canary"):
+        # just superseded: the conditions of its former role are still there
+        if rng.random() < 0.35:
+            conds.append(K.cond("Active", "True", trans=rng.choice([-3000, -300, -61])))
+        elif rng.random() < 0.2:
+            conds.append(K.cond("Canary", "True", trans=rng.choice([-600, -30])))
     if role not in ("active", "canary") and rng.random() < 0.35:
         conds.append(K.cond("Canary-Failed", rng.choice(["True", "True", "False"]), trans=rng.choice([-20, -121, -700]), reason="CrashLoopBackOff"))
         if rng.random() < 0.5:
@@ -415,6 +421,8 @@ def gen_ers_world(rng, stats=None, force=None):
             faults["status"] = True
         if rng.random() < 0.15:
             faults["list_fail"] = [rng.choice(["Node", "Pod", "ExtendedDaemonsetSetting"])]
+        if P.A_OLD_DS in (e["metadata"].get("annotations") or {}) and rng.random() < 0.4:
+            faults["get_fail"] = ["DaemonSet"]      # the old DaemonSet of the migration cannot be read
         if rng.random() < 0.2:
             faults["patch_pods"] = ["*"]
             pods_names = [o["metadata"]["name"] for o in objs if o["kind"] == "Pod"]
